@@ -1050,4 +1050,11 @@ PARTS = [
     Part("extrn", oracle_extrn, strategy=extrn_cases, quick=(1, 500), thorough=(8, 800)),
     Part("coords", oracle_coords, strategy=coord_cases, quick=(2, 200), thorough=(16, 350)),
     Part("uset", oracle_uset, strategy=uset_cases, quick=(2, 200), thorough=(16, 350)),
+    # coverage-guided (atheris / libFuzzer) tier over the same strategies and oracles
+    Part("fuzz_dmig", oracle_dmig, strategy=dmig_cases, quick=(1, 600), thorough=(4, 20000),
+         fuzz=dict(modules=["pyyeti.nastran.bulk"], time=25, time_thorough=300), tmax_thorough=400),
+    Part("fuzz_sets", oracle_sets, strategy=set_cases, quick=(1, 800), thorough=(4, 30000),
+         fuzz=dict(modules=["pyyeti.nastran.bulk"], time=25, time_thorough=300), tmax_thorough=400),
+    Part("fuzz_tabled1", oracle_tabled1, strategy=table_cases, quick=(1, 800), thorough=(4, 30000),
+         fuzz=dict(modules=["pyyeti.nastran.bulk"], time=25, time_thorough=300), tmax_thorough=400),
 ]
